@@ -379,6 +379,21 @@ def check_value(rec, L, S, d, v, key_prefix, fn, args, devs):
         rec.violation(f'{key_prefix}deserialize-value:{diff_kind(S, d, v, None, want)}', f'{what}: parsed value differs: {first_diff(a, b)}', fn, args)
         rec.outcome('value differs')
         return
+    # serialisation inverts parsing: the PARSED value (with the library's own @type annotations and value forms) serialises
+    # back to exactly the bytes it was parsed from
+    rec.trans()
+    try:
+        re_ = L.serialize(sch, back, boxed=True)
+    except Exception as e:
+        rec.violation(f'{key_prefix}reserialize-raises:{diff_kind(S, d, v, None, want)}', f'{what}: serialising the value returned by deserialize raised {exc_name(e)}: {e}', fn, args)
+        rec.outcome('reserialize raised')
+        return
+    rec.covered('reserialize-parsed')
+    if re_ != want:
+        rec.violation(f'{key_prefix}reserialize-bytes:{diff_kind(S, d, v, re_, want)}', f'{what}: the value returned by deserialize serialises to other bytes than it was parsed from '
+                      f'({re_[:48].hex()}... {len(re_)} B vs {want[:48].hex()}... {len(want)} B)', fn, args)
+        rec.outcome('reserialize differs')
+        return
     rec.outcome('ok')
 
 
